@@ -1084,7 +1084,11 @@ def simplify_variable(
     return var
   new_var = ctx.program.NewVariable()
   for bindings in bindings_by_hash.values():
-    new_var.AddBinding(bindings[0].data, bindings, node)
+    # Each duplicate is an alternative source of the merged binding, so it gets
+    # a source set of its own (one source set listing all of them would demand
+    # that they hold simultaneously, which bindings of one variable never do).
+    for b in bindings:
+      new_var.AddBinding(bindings[0].data, [b], node)
   return new_var
 
 
